@@ -29,13 +29,24 @@ MODES = dict(check_open="ignore", check_disconnected="ignore", check_selfinterse
 
 # ------------------------------------------------------------------ reading the TLC side
 def states_from_dump(states):
-    """TLC state dicts {m, kind, base, n, last} -> list of mesh descriptions (faces stay 1-based)."""
+    """TLC state dicts {m, kind, base, n, last, st, fam} -> list of mesh descriptions (faces stay 1-based).  The state holds
+    the unstretched mesh and the stretch; the description holds the concrete (stretched) vertices and the stretch."""
     out = []
     for s in states:
         m = s["m"]
-        out.append({"base": s["base"], "kind": s["kind"], "n": s["n"], "op": s["last"]["op"],
-                    "verts": [list(v) for v in m["v"]], "faces": [list(f) for f in m["f"]]})
+        st = [int(x) for x in s.get("st", (1, 1, 1))]
+        out.append({"base": s["base"], "kind": s["kind"], "n": s["n"], "op": s["last"]["op"], "fam": s.get("fam", "std"), "stretch": st,
+                    "verts": [[v[0] * st[0], v[1] * st[1], v[2] * st[2]] for v in m["v"]], "faces": [list(f) for f in m["f"]]})
     return out
+
+
+def bkey(msh):
+    """name of the reference body of a mesh: base name and stretch"""
+    return msh["base"] + "|" + ",".join(str(x) for x in msh.get("stretch", (1, 1, 1)))
+
+
+def stretched_points(pts, st):
+    return [[p[0] * st[0], p[1] * st[1], p[2] * st[2]] for p in pts]
 
 
 def observers_from_output(out):
@@ -172,17 +183,18 @@ def fields(m, kap, pts):
 
 class Driver:
     def __init__(self, bases, observers, kappas):
-        self.bases = bases            # base name -> mesh description as written in Mesh.tla (TLC init state)
+        self.bases = bases            # bkey (base name|stretch) -> mesh description as written in Mesh.tla (TLC init state)
         self.obs = observers
         self.kappas = kappas          # list of (Kappa, info)
         self.ref = {}                 # (base, kappa index) -> (B0, H0)
 
-    def reference(self, base, ki):
-        key = (base, ki)
+    def reference(self, msh, ki):
+        key = (bkey(msh), ki)
         if key not in self.ref:
             kap = self.kappas[ki][0]
-            m, _ = build(self.bases[base], kap)
-            self.ref[key] = fields(m, kap, self.obs[base]["pts"])
+            ref = self.bases[bkey(msh)]
+            m, _ = build(ref, kap)
+            self.ref[key] = fields(m, kap, stretched_points(self.obs[msh["base"]]["pts"], ref["stretch"]))
         return self.ref[key]
 
     def id_index(self):
@@ -195,6 +207,7 @@ class Driver:
         kap, info = self.kappas[ki]
         lam = kap.lam
         ev = {"type": "mesh", "tid": tid, "src": src, "kind": msh["kind"], "base": msh["base"], "op": msh.get("op", ""), "path": path, **info,
+              "stretch": list(msh.get("stretch", (1, 1, 1))),
               "verts_in": msh["verts"], "faces_in": msh["faces"]}
         m, st = build(msh, kap, path)
         try:
@@ -206,13 +219,13 @@ class Driver:
         ev["faces_out"] = (np.asarray(m.faces) + 1).astype(int).tolist()
         ev["st_none"] = any(s is None for s in st)
         ev["open"], ev["disc"], ev["selfint"] = (bool(s) for s in st)
-        has = msh["kind"] == "closed" and msh["base"] in self.obs
+        has = msh["kind"] == "closed" and msh["base"] in self.obs and bkey(msh) in self.bases
         fl = {"has": has}
         if has:
-            pts = self.obs[msh["base"]]["pts"]
+            pts = stretched_points(self.obs[msh["base"]]["pts"], ev["stretch"])
             B, H = fields(m, kap, pts)
-            B0, H0 = self.reference(msh["base"], ki)
-            Bid, Hid = self.reference(msh["base"], self.id_index())
+            B0, H0 = self.reference(msh, ki)
+            Bid, Hid = self.reference(msh, self.id_index())
             sB, sH = gross(B, B0, Bid), gross(H, H0, Hid)
             fl.update({"obs": pts, "den": OBS_DEN, "B": obs8(B, sB), "H": obs8(H, sH), "B0": obs8(B0, sB), "H0": obs8(H0, sH),
                        "Bid": obs8(Bid, sB), "Hid": obs8(Hid, sH)})
